@@ -739,6 +739,7 @@ int main(int argc, char** argv) {
   F z_temp = 1;
   U z_its = 0;
   unsigned long rand_init = 0;
+  bool rand_init_given = false;
   Str parses_filename = "";
   Str grammar_filename = "";
   Str trace_filename = "";
@@ -846,6 +847,7 @@ int main(int argc, char** argv) {
       break;
     case 'r':
       rand_init = strtoul(optarg, NULL, 10);
+      rand_init_given = true;
       break;
     case 's':
       train_frac = atof(optarg);
@@ -947,7 +949,9 @@ int main(int argc, char** argv) {
   //     std::cerr << "# test2s.size() = " << test2s.size() << std::endl;
   // }
 
-  if (rand_init == 0)
+  // without -r the generator is seeded from the clock; a seed given on
+  // the command line is used as it is, 0 included
+  if (!rand_init_given)
     rand_init = time(NULL);
 
   mt_init_genrand(rand_init);
